@@ -18,6 +18,44 @@ CHECKS = {
         "Trusted: python dict semantics as the reference; integer-valued data so that equality after unit "
         "conversion is exact. Not covered: histories longer than the bound; incompatible-unit members in ==.",
         "DESIGN.md section 3 C20"),
+    "C06": (
+        "model-based PBT over operation histories: numpy index semantics as the reference model, hidden row-id "
+        "member for provenance under sorting (Hypothesis, shrinking, replay files)",
+        "Generated histories of insert/replace/update/delete/pop/alias/shallow-copy/clear+update/index/sortby on a "
+        "Datagroup mixing Arrays and Vectors of four dtypes are compared after every step with a numpy model "
+        "(every member and component must equal model[index]); exploration bounded to <=12 ops, <=12 rows.",
+        "Trusted: numpy indexing semantics. Ties in sortby accepted in any order (sortedness + permutation + row "
+        "integrity asserted). Not covered: groups of 2-d members, histories longer than the bound.",
+        "DESIGN.md section 3 C06"),
+    "C02": (
+        "PBT against an independent unit engine (differential oracle on physical quantities in cgs) + exhaustive "
+        "operator x operand-kind x dtype table (Hypothesis, shrinking, replay files)",
+        "Every generated (operator, operands) case is recomputed in float64 cgs by a 100-line dimensional-analysis "
+        "model that does not use pint; result must be the same physical quantity with the broadcast shape; "
+        "incompatible + and - must raise and leave operands untouched. Exploration: |values| in {0} u 10^[-3,3] "
+        "plus nan/inf, shapes <= 4x4, 40 unit spellings in 12 families.",
+        "Trusted: the unit table of vlib/unitmodel.py (cross-checked against the live registry by C08). Tolerance "
+        "64 eps of the coarsest float dtype involved / 1e-9 with unit factors. Reflected + and - are not generated.",
+        "DESIGN.md section 3 C02"),
+    "C07": (
+        "PBT with values engineered around equality after conversion, verdict oracle from the independent unit "
+        "engine; exhaustive truth tables for the logical operators",
+        "Generated comparisons (six operators, five rhs kinds, four dtypes, broadcast shapes, same/compatible/"
+        "incompatible units incl. scaled dimensionless units) are judged against numpy comparisons of cgs values; "
+        "elements closer than the tolerance are not judged; incompatible dimensions must raise; logical operators "
+        "are compared with numpy on generated shapes and complete truth tables.",
+        "Trusted: vlib/unitmodel.py. Elements within 1e-9 (1e-5 with float32 operands) relative are not judged.",
+        "DESIGN.md section 3 C07"),
+    "C08": (
+        "PBT (same-quantity, immutability, round-trip and chain metamorphic relations against the independent unit "
+        "engine) + exhaustive enumeration of the unit catalogue and its spellings",
+        "Generated Arrays/Vectors are converted within and across families; results are compared with the "
+        "independent model, the source must be bit-identical afterwards, round trips and chains must agree, "
+        "incompatible pairs must raise. The finite catalogue (9 osyris-defined constants x spellings, 45 generator "
+        "units, spelling equivalence sets) is enumerated completely against accepted physical values (1e-3) and "
+        "the frozen table (1e-12).",
+        "Trusted: accepted values written into checks/c08.py (IAU 2015 / CODATA); vlib/unitmodel.py.",
+        "DESIGN.md section 3 C08"),
 }
 
 NOT_APPLICABLE = []
